@@ -7,6 +7,10 @@ VERIF = os.path.dirname(os.path.dirname(os.path.abspath(__file__)))
 
 NOT_BUILT = "check not built yet (work in progress, see DESIGN.md)"
 
+# checks that have been run silent on the unchanged tree over several seeds and whose
+# sensitivity self-test passed; everything else stays under not_applicable until then
+APPROVED = ["C06", "C12", "C13", "C20"]
+
 
 def main():
     props = [json.loads(l) for l in open(os.path.join(VERIF, "properties.jsonl"))]
@@ -17,6 +21,9 @@ def main():
             mod = importlib.import_module("vf.checks.%s" % pid.lower())
         except ModuleNotFoundError:
             na.append({"property_id": pid, "reason": NOT_BUILT})
+            continue
+        if pid not in APPROVED:
+            na.append({"property_id": pid, "reason": "check written but not yet validated on the unchanged tree (work in progress)"})
             continue
         if not getattr(mod, "READY", True):
             na.append({"property_id": pid, "reason": getattr(mod, "NOT_READY_REASON", NOT_BUILT)})
